@@ -751,7 +751,8 @@ def rule_stateapi(ctx, R):
         "set_latest_loc": [["SET(P1.latest,Option::Some{P2})", "RET(K'()')"]],
         "get_point": [["HashMap::get(P1.point,P2)", "Option::copied(HashMap::get(P1.point,P2))", "RET(Option::copied(HashMap::get(P1.point,P2)))"], ["HashMap::get(P1.point,P2)", "Option::cloned(HashMap::get(P1.point,P2))", "RET(Option::cloned(HashMap::get(P1.point,P2)))"]],
         "set_point": [["HashMap::insert(P1.point,P2,P3)", "RET(K'()')"]],
-        "push_code": [["COLLECT(P1.code,P2)", "Vec::len(P1.code)", "RET((Vec::len(P1.code) Sub K1))"]],
+        # the index of the appended command: length after the push minus one, or the length read before the push
+        "push_code": [["COLLECT(P1.code,P2)", "Vec::len(P1.code)", "RET((Vec::len(P1.code) Sub K1))"], ["Vec::len(P1.code)", "COLLECT(P1.code,P2)", "RET(Vec::len(P1.code))"]],
         "get_code": [["Index::index(P1.code,P2)", "RET(Index::index(P1.code,P2))"]],
     }
     n = 0
